@@ -13,13 +13,13 @@ CLAIMED = {
     technique='Coq proof (regex matcher soundness/completeness/uniqueness, induction over templates) + generated-instance obligations + correspondence',
     design='6 C01'),
  'C02': dict(
-    text='Theorems (all configurations, all naturally typed Sids): the string is the canonical rendering of the fields in template order; Sid(uri) and copy() give back the Sid; Sid(fields=d\') for every permutation d\' of the fields gives back the Sid (guard: no newline in the string); typed Sids are equal iff type and fields are equal; as_query/to_dict round trip on url-safe fields and the query rebuild (guarded). eval(repr()) is covered by correspondence only. Differential run + oracle over the per-key value products of every type incl. search Sids and colliding key sets.',
-    note=TB + 'eval(repr(sid)) is modelled as Sid(uri) for quote-free strings (modelled, not verified). The fields-rebuild theorem is _partial: strings with a newline are covered by correspondence only.',
+    text='Theorems (all configurations, all naturally typed Sids): the string is the canonical rendering of the fields in template order; Sid(uri) and copy() give back the Sid; Sid(fields=d\') for every permutation d\' of the fields gives back the Sid - in full (no guard on the string) for every configuration passing the decidable check nl_safe, with the exact condition for any well-formed configuration and a refutation of the unguarded statement without nl_safe; typed Sids are equal iff type and fields are equal; as_query/to_dict round trip on url-safe fields and the query rebuild (guarded). eval(repr()) is covered by correspondence only. Differential run + oracle over the per-key value products of every type incl. search Sids and colliding key sets.',
+    note=TB + 'eval(repr(sid)) is modelled as Sid(uri) for quote-free strings (modelled, not verified). nl_safe is proved for the live configuration (and every family member) on every run.',
     technique='Coq proof + generated-instance obligations + correspondence',
     design='6 C02'),
  'C03': dict(
     text='Theorems: get_as(k_i) is typed with exactly the first i fields and the i-segment prefix string; parent = get_as(second-to-last key) / itself for one field; parent / last value gives back the Sid; len / keytype / basetype coherence; navigation on untyped Sids returns the empty Sid. The forced-type counterexample to "parent / value" is proved as a _refuted example and excluded by the naturally_typed hypothesis. Differential run over every key of generated Sids of every type + oracle.',
-    note=TB + 'get_as / div theorems carry the guard "no newline in the string" (_partial).',
+    note=TB + 'get_as / div are full (no guard on the string) for configurations passing the decidable check nl_safe (proved for the live configuration on every run); guarded forms for any well-formed configuration; the unguarded statement is refuted on a configuration outside the conventions.',
     technique='Coq proof (prefix closure + same-key-set-same-sequence wf clauses) + correspondence',
     design='6 C03'),
  'C04': dict(
